@@ -13,6 +13,7 @@ import RSV.Model.Kernels
 import RSV.Model.Memo
 import RSV.Model.Bitfield
 import RSV.Model.BitfieldImpl
+import RSV.Model.AsmCheck
 /-! line-protocol driver: one op per input line, one result line per op (core only) -/
 namespace Drv
 open RSV RSV.Model
@@ -647,8 +648,12 @@ where stepOp (toks : List String) : String :=
   | [] => ""
   | _ => "bad-op"
 
+/-- `asmcheck <kernel line>`: the proved reflective checker (`RSV.Props.C08asm.C08_asm_sound`) on the canonical text of one
+generated amd64 kernel; the rest of the line is passed verbatim -/
 def step (line : String) : String :=
-  stepToks ((line.trimAscii.toString.splitOn " ").filter (· ≠ ""))
+  let t := line.trimAscii.toString
+  if t.startsWith "asmcheck " then RSV.Asm.checkLine (t.drop 9).toString.trimAscii.toString
+  else stepToks ((t.splitOn " ").filter (· ≠ ""))
 
 partial def loop (hin : IO.FS.Stream) (hout : IO.FS.Stream) : IO Unit := do
   let line ← hin.getLine
